@@ -397,6 +397,12 @@ pub fn run(ctx: &Ctx) -> Report {
     rep.floor("B-checked", 30);
 
     if let Some(r) = &ctx.replay {
+        if r["family"].as_str() == Some("E") {
+            let seed: u64 = r["seed"].as_str().and_then(|s| s.parse().ok()).unwrap_or(0);
+            crate::mon::c11_table::run_one(&mut rep, seed, r.clone());
+            rep.evaluations += 1;
+            return rep;
+        }
         let seed: u64 = r["shard_seed"].as_str().and_then(|s| s.parse().ok()).unwrap_or(0);
         let idx = r["index"].as_u64().unwrap_or(0);
         let mut rng = Rng::new(subseed(seed, &[idx]));
@@ -406,8 +412,20 @@ pub fn run(ctx: &Ctx) -> Report {
         return rep;
     }
 
-    let n = ctx.share(160, 5_000);
     let shard_seed = ctx.shard_seed();
+
+    // family E: the fabric table over its whole index range (public Fabrics / FabricPersist API)
+    rep.floor("E-crash-points-checked", 1000);
+    rep.floor("E-histories-with-index-beyond-table-capacity", 20);
+    for k in 0..ctx.share(160, 8_000) {
+        let idx = k * ctx.nshards + ctx.shard;
+        let seed = subseed(shard_seed, &[0xE0, idx]);
+        let rj = json!({"check":"C11","family":"E","seed": seed.to_string()});
+        crate::mon::c11_table::run_one(&mut rep, seed, rj);
+        rep.evaluations += 1;
+    }
+
+    let n = ctx.share(160, 5_000);
     for k in 0..n {
         let idx = k * ctx.nshards + ctx.shard;
         let mut rng = Rng::new(subseed(shard_seed, &[idx]));
